@@ -32,6 +32,9 @@ type AssertSpec struct {
 	Callee string
 	Ord    int
 	E      *Expr
+	After  bool   // placed after the call (default: before)
+	Lemma  string // apply: instantiate this (separately proved) lemma with Args and assume it
+	Args   []*Expr
 }
 
 type Contract struct {
@@ -101,6 +104,7 @@ type LemmaDef struct {
 	Vars       []string
 	Body       *Expr
 	Induct     string
+	Strong     bool
 	Uses       []string
 	Raw        string // raw SMT-LIB goal (alternative to Body)
 	Timeout    int
@@ -122,19 +126,21 @@ type ContractDB struct {
 	Lemmas  []*LemmaDef
 	Guards  []*GuardDef
 	Ghosts  map[string]string // ghost heap name -> element sort
+	GhostOf map[string]string // ghost heap name -> owning struct type (ghost field)
 	SpecFns map[string]*SpecFn
 	Prelude []string          // raw SMT-LIB prelude chunks (in order)
 	Order   []string
 }
 
 type SpecFn struct {
-	Name string
-	Args []string
-	Ret  string
+	Name  string
+	Args  []string
+	Ret   string
+	Bytes bool // the result is an array of byte values (the prelude has the range axiom)
 }
 
 func NewContractDB() *ContractDB {
-	return &ContractDB{Funcs: map[string]*Contract{}, Preds: map[string]*PredDef{}, Ghosts: map[string]string{}, SpecFns: map[string]*SpecFn{}}
+	return &ContractDB{Funcs: map[string]*Contract{}, Preds: map[string]*PredDef{}, Ghosts: map[string]string{}, GhostOf: map[string]string{}, SpecFns: map[string]*SpecFn{}}
 }
 
 // LoadContractFile parses one file; pkgPath is the import path the relative names refer to
@@ -336,9 +342,14 @@ func (db *ContractDB) LoadContractFile(path, pkgPath string) error {
 			default:
 				return fail("unknown loop clause %q", w3)
 			}
-		case "assert":
-			// assert before call f#k: E
-			r := strings.TrimPrefix(strings.TrimSpace(rest), "before call ")
+		case "assert", "apply":
+			// assert before|after call f#k: E        apply before|after call f#k: lemma(args)
+			r := strings.TrimSpace(rest)
+			if strings.HasPrefix(r, "at entry") {
+				r = "before call @entry" + strings.TrimPrefix(r, "at entry")
+			}
+			after := strings.HasPrefix(r, "after call ")
+			r = strings.TrimPrefix(strings.TrimPrefix(r, "before call "), "after call ")
 			k := strings.Index(r, ":")
 			if k < 0 {
 				return fail("assert before call f#k: E")
@@ -352,7 +363,14 @@ func (db *ContractDB) LoadContractFile(path, pkgPath string) error {
 			if err != nil {
 				return err
 			}
-			cur.Asserts = append(cur.Asserts, AssertSpec{callee, ord, e})
+			as := AssertSpec{Callee: callee, Ord: ord, E: e, After: after}
+			if word == "apply" {
+				if e.Kind != "call" {
+					return fail("apply ...: lemma(args)")
+				}
+				as.Lemma, as.Args = e.Name, e.Args
+			}
+			cur.Asserts = append(cur.Asserts, as)
 		case "let":
 			name, r, ok := strings.Cut(rest, ":=")
 			if !ok {
@@ -494,6 +512,10 @@ func (db *ContractDB) LoadContractFile(path, pkgPath string) error {
 			if !ok {
 				return fail("ghost name : sort")
 			}
+			if sr, owner, ok := strings.Cut(srt, " of "); ok {
+				srt = sr
+				db.GhostOf[strings.TrimSpace(name)] = strings.TrimSpace(owner)
+			}
 			db.Ghosts[strings.TrimSpace(name)] = strings.TrimSpace(srt)
 			cur = nil
 		case "specfn":
@@ -515,6 +537,10 @@ func (db *ContractDB) LoadContractFile(path, pkgPath string) error {
 				return fail("specfn name(sorts) sort")
 			}
 			sf := &SpecFn{Name: strings.TrimSpace(rest[:k]), Ret: strings.TrimSpace(rest[k2+1:])}
+			if strings.HasSuffix(sf.Ret, " bytes") {
+				sf.Ret = strings.TrimSpace(strings.TrimSuffix(sf.Ret, " bytes"))
+				sf.Bytes = true
+			}
 			for _, a := range splitTop(rest[k+1:k2], ',') {
 				if a = strings.TrimSpace(a); a != "" {
 					sf.Args = append(sf.Args, a)
@@ -527,7 +553,7 @@ func (db *ContractDB) LoadContractFile(path, pkgPath string) error {
 			cur = nil
 		case "lemma":
 			// lemma name [property Cxx] [vars a,b] [induct k] [use l1,l2] : expr
-			hdr, body, ok := strings.Cut(rest, ":")
+			hdr, body, ok := strings.Cut(rest, " : ")
 			if !ok {
 				return fail("lemma name ... : expr")
 			}
@@ -544,6 +570,8 @@ func (db *ContractDB) LoadContractFile(path, pkgPath string) error {
 				case "induct":
 					i++
 					lm.Induct = toks[i]
+				case "strong":
+					lm.Strong = true
 				case "use":
 					i++
 					lm.Uses = strings.Split(toks[i], ",")
